@@ -104,7 +104,14 @@ def rank_of(t, env):
         # child log-det: r.X_and_log_det(...)[1] is rank-0 by induction
         if t[2] == C(1) and inner[0] == "call" and inner[1][0] == "attr" and inner[1][2] in (
                 "transform_and_log_det", "inverse_and_log_det"):
-            return 0
+            # ... unless the receiver is the child's vectorised view: one log-det per leading batch element
+            def recv(r):
+                if r[0] == "attr" and r[2] == "_vectorize":
+                    return "POS"
+                if r[0] == "ite":
+                    return join(recv(r[2]), recv(r[3]))
+                return 0
+            return recv(inner[1][1])
         if t[2] == C(1) and inner[0] == "call" and inner[1][0] == "call" and inner[1][1] in (
                 ("ext", "equinox.filter_vmap"), ("ext", "jax.vmap")):
             return "POS"  # vmapped child log-dets carry the mapped axis
@@ -667,7 +674,32 @@ def rule_samebin(prog, rep):
     site = method_site(prog, c, "derivative")
     at, ad = (abstract_spline(wt[1]) if wt else None), (abstract_spline(wd[1]) if wd else None)
     if not at or not ad:
-        rep.undecided("C02.samebin", site, "spline:samebin", "bin lookup not recognised")
+        # the formulas are not in the recognised shape (e.g. a new option adds paths): compare the operands of the bin
+        # lookups directly - the value and its derivative must be read from the same bin wherever the derivative is used
+        def lookups(t):
+            return {key(s2): s2 for s2 in walk(t) if s2[0] == "call" and s2[1] == ("ext", "jax.numpy.searchsorted")
+                    and dict(s2[3]).get("a") == ("attr", SELF, "x_pos")}
+        lt, ld_ = lookups(tT), lookups(tD)
+
+        def unmasked_path(t):
+            """Some way out of `derivative` returns the in-bin formula without masking it outside the interval."""
+            if t[0] == "ite":
+                return unmasked_path(t[2]) or unmasked_path(t[3])
+            return not (t[0] == "call" and t[1] == ("ext", "jax.numpy.where"))
+        if len(lt) == 1 and len(ld_) == 1:
+            vt, vd = dict(next(iter(lt.values()))[3]).get("v"), dict(next(iter(ld_.values()))[3]).get("v")
+            if vt is not None and vd is not None and equal(vt, vd):
+                rep.holds("C02.samebin", site, "RationalQuadraticSpline:derivative-bin==transform-bin",
+                          f"both look up the bin of {show(vt, 100)}")
+            elif vt is not None and vd is not None and unmasked_path(tD):
+                rep.violated("C02.samebin", site, "RationalQuadraticSpline:derivative-bin==transform-bin",
+                             f"transform looks up the bin of {show(vt, 120)} but derivative the bin of {show(vd, 120)}, and "
+                             f"derivative has a path that returns the in-bin formula unmasked: outside the interval the "
+                             f"log-det is taken from a different piece than the value")
+            else:
+                rep.undecided("C02.samebin", site, "spline:samebin", "bin lookup operands differ but every derivative path is masked")
+        else:
+            rep.undecided("C02.samebin", site, "spline:samebin", "bin lookup not recognised")
     else:
         rep.check(equal(at[2], ad[2]), "C02.samebin", site, "RationalQuadraticSpline:derivative-bin==transform-bin",
                   show(at[2], 120), f"transform looks up bin {show(at[2], 160)} but derivative looks up {show(ad[2], 160)}")
